@@ -109,10 +109,10 @@ Proof.
 Qed.
 
 Theorem Src_C15_option_encode t x buf :
-  Gen.option_ssz_append (append t) (Some x) buf = Ok (buf ++ 1 :: enc t x) /\
-  Gen.option_ssz_append (append t) None buf = Ok (buf ++ [0]).
+  Gen.option_ssz_append (app_of t) (Some x) buf = Ok (buf ++ 1 :: enc t x) /\
+  Gen.option_ssz_append (app_of t) None buf = Ok (buf ++ [0]).
 Proof.
-  split; [|reflexivity]. unfold Gen.option_ssz_append. rewrite append_spec, <- app_assoc. reflexivity.
+  split; [|reflexivity]. unfold Gen.option_ssz_append, app_of. cbn [bind]. rewrite append_spec, <- app_assoc. reflexivity.
 Qed.
 
 (** ** C02 / C01 / C07 on the source-derived [Vec<T>] codec, for every canonical item type *)
@@ -142,7 +142,7 @@ Theorem Src_C01_vec_round_trip t vs :
   len (enc (TList t) (VList vs)) < 4294967296 ->
   4 * llen vs + sumN (map (fun v => len (enc t v)) vs) <= usize_max ->
   e_fixed_len t * llen vs <= usize_max ->
-  (do bs <- Gen.vec_ssz_append (e_is_fixed t) (e_fixed_len t) (append t) vs [];
+  (do bs <- Gen.vec_ssz_append (e_is_fixed t) (e_fixed_len t) (app_of t) vs [];
    omap VList (Gen.vec_from_ssz_bytes (d_is_fixed t) (d_fixed_len t) (dec t) bs)) = Ok (VList vs).
 Proof.
   intros Hrt Hty Hlen Hfit Hfix.
